@@ -241,9 +241,48 @@ def run(ctx):
             )
             r5.check(src(it.args[2]) == ids_param, f"{db.rel}:{wn}:{src(it.args[1])}:ids", f"{wn} walks `{src(it.args[2])}` instead of all ids it was given", db.rel, lp.lineno)
             loopvars = set(names_in(lp.target))
-            for y in ast.walk(lp):
-                if not isinstance(y, ast.Yield):
+            # loop variable -> model of the query column it is bound to (positional)
+            qcall = qexprs[0]
+            while isinstance(qcall, ast.Call) and isinstance(qcall.func, ast.Attribute) and qcall.func.attr != "query":
+                qcall = qcall.func.value
+            tvars = [src(t) for t in lp.target.elts] if isinstance(lp.target, ast.Tuple) else [src(lp.target)]
+            colmodel = {}
+            if isinstance(qcall, ast.Call) and len(qcall.args) == len(tvars):
+                colmodel = {v: src(a).split(".")[0] for v, a in zip(tvars, qcall.args)}
+            yields = [y for y in ast.walk(lp) if isinstance(y, ast.Yield)]
+            # early exits from the row loop: each one skips every later yield of that row
+            for j in ast.walk(lp):
+                if not isinstance(j, (ast.Continue, ast.Break, ast.Return)):
                     continue
+                gif = db.parent.get(j)
+                later = [y for y in yields if y.lineno > j.lineno]
+                if not later:
+                    continue
+                if isinstance(j, (ast.Break, ast.Return)) or not isinstance(gif, ast.If) or db.parent.get(gif) is not lp or not any(j is z for z in gif.body):
+                    r5.violation(f"{db.rel}:{wn}:{src(it.args[1])}:early-exit", f"{wn} leaves the row loop with `{type(j).__name__.lower()}` at line {j.lineno} before later yields: the remaining rows/columns are not transferred", db.rel, j.lineno)
+                    continue
+                t = gif.test
+                for y in later:
+                    yv = src(y.value.elts[2]) if isinstance(y.value, ast.Tuple) and len(y.value.elts) == 3 else None
+                    null_skip = src(t) in (f"not {yv}", f"{yv} is None")
+                    dedup = (
+                        isinstance(t, ast.Compare)
+                        and len(t.ops) == 1
+                        and isinstance(t.ops[0], ast.In)
+                        and isinstance(t.left, ast.Name)
+                        and t.left.id in loopvars
+                        and colmodel.get(t.left.id) is not None
+                        and colmodel.get(t.left.id) == colmodel.get(yv)
+                    )
+                    r5.check(
+                        null_skip or dedup,
+                        f"{db.rel}:{wn}:{yv}:skipped-by-continue",
+                        f"{wn}: `if {src(t)}: continue` also skips the later `yield ... {yv}`, whose column ({colmodel.get(yv, '?')}) is not determined by the tested column "
+                        f"({colmodel.get(src(t.left) if isinstance(t, ast.Compare) else '', '?')}): when an outer join repeats the row for a further {yv}, those records are never walked",
+                        db.rel,
+                        j.lineno,
+                    )
+            for y in yields:
                 yvar = src(y.value.elts[2]) if isinstance(y.value, ast.Tuple) and len(y.value.elts) == 3 else None
                 p = db.parent.get(y)
                 while p is not None and p is not lp:
@@ -253,7 +292,7 @@ def run(ctx):
                         t = p.test
                         in_body = any(y is z for b in p.body for z in ast.walk(b))
                         null_skip = in_body and src(t) in (yvar, f"{yvar} is not None")
-                        dedup = in_body and isinstance(t, ast.Compare) and len(t.ops) == 1 and isinstance(t.ops[0], ast.NotIn) and isinstance(t.left, ast.Name) and t.left.id in loopvars and isinstance(t.comparators[0], ast.Name) and any(
+                        dedup = in_body and isinstance(t, ast.Compare) and len(t.ops) == 1 and isinstance(t.ops[0], ast.NotIn) and isinstance(t.left, ast.Name) and t.left.id in loopvars and isinstance(t.comparators[0], ast.Name) and (not colmodel or colmodel.get(t.left.id) == colmodel.get(yvar)) and any(
                             isinstance(c, ast.Call) and src(c.func) == f"{src(t.comparators[0])}.add" and c.args and src(c.args[0]) == src(t.left) for b in p.body for c in ast.walk(b)
                         )
                         r5.check(
